@@ -225,7 +225,8 @@ class CFG(object):
         # continuation after the copy
         for p, lab in outs:
             if kind == 'exc':
-                self._raise_from(p, outer_frames, label='reraise')
+                self._raise_from(p, outer_frames,
+                                 label=lab if lab in ('true', 'false') else 'reraise')
             elif kind == 'return':
                 self._return_from(p, outer_frames, label=lab)
             elif kind == 'break':
@@ -334,7 +335,7 @@ class CFG(object):
             tv = static_truth(s.test, self.consts)
             body_out = self._block(s.body, [(t, 'true')], frames + [fr])
             for p, lab in body_out:
-                self._edge(p, t, 'back')
+                self._edge(p, t, lab if lab in ('true', 'false') else 'back')
             outs = []
             if tv is not True:
                 if s.orelse:
@@ -350,7 +351,7 @@ class CFG(object):
             fr = {'k': 'loop', 'breaks': [], 'cont': h}
             body_out = self._block(s.body, [(h, 'true')], frames + [fr])
             for p, lab in body_out:
-                self._edge(p, h, 'back')
+                self._edge(p, h, lab if lab in ('true', 'false') else 'back')
             outs = []
             if s.orelse:
                 outs += self._block(s.orelse, [(h, 'false')], frames)
